@@ -830,9 +830,10 @@ impl StepOracle for NoFreeValueOracle {
             return;
         }
         let (u, b) = match c.a {
-            Action::Deposit { u, b, .. } | Action::Withdraw { u, b, .. } | Action::Borrow { u, b, .. } | Action::Repay { u, b, .. } => (*u, *b),
+            Action::Deposit { u, b, .. } | Action::Withdraw { u, b, .. } | Action::Borrow { u, b, .. } | Action::Repay { u, b, .. } | Action::CloseBalance { u, b } => (*u, *b),
             _ => return,
         };
+        let closing = matches!(c.a, Action::CloseBalance { .. });
         let (pn, qn) = (&c.pre_nums[b], &c.post_nums[b]);
         let bh = &c.w.banks[b];
         let ta = c.w.users[u].tokens[&bh.mint];
@@ -858,7 +859,13 @@ impl StepOracle for NoFreeValueOracle {
         let d_tokens = rf::qi(t1 - t0);
         let d_pos = (a1.clone() - l1.clone()) - (a0.clone() - l0.clone());
         let d_w = d_tokens.clone() + d_pos.clone();
-        let allow = rf::ulp() * rf::qi(8) * (rf::qone() + rf::q_raw(qn.asv) + rf::q_raw(qn.lsv));
+        let mut allow = rf::ulp() * rf::qi(8) * (rf::qone() + rf::q_raw(qn.asv) + rf::q_raw(qn.lsv));
+        if closing {
+            // closing a position forgives what is left of it: the program's documented dust threshold of
+            // 0.0001 native units (the same figure C02 allows to be abandoned per closed position)
+            allow = allow + rf::qfrac(1, 10_000);
+            tags.push("close_dust_bounded");
+        }
         tags.push("wealth_checked");
         if t1 != t0 {
             tags.push("tokens_moved");
